@@ -5,7 +5,7 @@ export GOFLAGS=-mod=mod GOPROXY=off GOSUMDB=off GOTOOLCHAIN=local
 (cd engine && go build -o ../bin/gosym ./cmd/gosym) || exit 2
 for id in ${*:-C04 C05 C09 C20 C06 C12 C16 C07 C19 C13 C10 C14 C18 C15 C17 C02 C01 C11 C03}; do
   s=$(date +%s)
-  timeout 1800 ./check $id --tier thorough > thorough_$id.out 2>&1; code=$?
+  timeout 900 ./check $id --tier thorough > thorough_$id.out 2>&1; code=$?
   echo "$id exit=$code $(( $(date +%s) - s ))s: $(grep -E '^(PASS|FAIL|INCONCLUSIVE property=[A-Z0-9]+ tier)' thorough_$id.out | tail -1 | cut -c1-180)"
   grep -E '^(VIOLATION|INCONCLUSIVE)' thorough_$id.out | head -5 | cut -c1-250
 done
